@@ -34,7 +34,10 @@ TOLERANCES = {"energy": 1e-12,                 # [1.7e-16]
               "ms-vs-mie": 1e-4,               # [1.9e-6]
               "ms-optical-theorem": 1e-6,      # [0]
               # quadrature error of the 4 pi integral for chains along z
-              "ms-nonabsorbing-cabs": 3e-3}    # [6.2e-5] of Cext
+              "ms-nonabsorbing-cabs": 3e-3,    # [6.2e-5] of Cext
+              # an oblique dimer (Csca summed analytically from the cluster
+              # coefficients): truncation of the expansions only
+              "ms-nonabsorbing-cabs-analytic": 1e-4}
 TOL = TOLERANCES
 TIMEOUT = 900
 
@@ -103,6 +106,9 @@ def cases(tier, seed):
                     "_timeout": 900})
     for which in ("equal", "unequal"):
         out.append({"id": "ms3z:" + which, "kind": "ms3z", "which": which,
+                    "_timeout": 900})
+    for i in range(len(OBL_POLS)):
+        out.append({"id": "ms2-oblique:pol#%d" % i, "kind": "msobl", "i": i,
                     "_timeout": 900})
     # histories over near-identical spheres (a result remembered under a key
     # that is too coarse -- rounded size parameter or index -- shows up as a
@@ -480,8 +486,40 @@ def _run_ms3z(case, ck):
     return digest(np.asarray(res, dtype=float))
 
 
+OBL_POLS = [(1, 0), (0, 1), (0.6, 0.8), (0.6, -0.8), (1, 1)]
+
+
+def _run_msobl(case, ck):
+    """a dimer of non-absorbing spheres that is oblique to the beam, under
+    polarizations along, across and oblique to its projection: the
+    extinction from the optical theorem must equal the scattering cross
+    section (no absorption), whatever the polarization"""
+    from holopy.scattering import (Sphere, Spheres, Multisphere,
+                                   calc_cross_sections)
+    nmed, wl = 1.33, 0.66
+    clus = Spheres([Sphere(n=1.59, r=0.4, center=(0, 0, 4.4)),
+                    Sphere(n=1.45, r=0.3, center=(0.7, 0.3, 5.2))])
+    res = []
+    for pol in [OBL_POLS[case["i"]]]:
+        for kw in ({}, dict(eps=1e-12, qeps1=1e-12, qeps2=1e-14)):
+            got = calc_cross_sections(clus, nmed, wl, pol,
+                                      theory=Multisphere(**kw)).values
+            ck.trans += 1
+            e = abs(got[1]) / abs(got[2])
+            ck.metric("ms-oblique-cabs", e)
+            ck.true("energy-nonabsorbing", e <=
+                    TOL["ms-nonabsorbing-cabs-analytic"],
+                    "oblique dimer of non-absorbing spheres, polarization "
+                    "%r, %s solver options: Cabs = %r, Cext = %r, Csca = %r"
+                    % (pol, "tight" if kw else "default", got[1], got[2],
+                       got[0]))
+            res.append(got)
+    return digest(np.asarray(res, dtype=float))
+
+
 def run_case(case):
     ck = Checker()
     fp = {"sphere": _run_sphere, "layered": _run_layered, "ms1": _run_ms1,
-          "ms2": _run_ms2, "ms3z": _run_ms3z, "history": _run_history}[case["kind"]](case, ck)
+          "ms2": _run_ms2, "ms3z": _run_ms3z, "msobl": _run_msobl,
+          "history": _run_history}[case["kind"]](case, ck)
     return ck.result(fp=fp)
